@@ -316,3 +316,108 @@ func TestVerifRegistryRandom(t *testing.T) {
 		}
 	}
 }
+
+// ---------------------------------------------------------------- PostSweepExact at scale
+//
+// TestVerifRegistryScale: the rule "after a sweep a registration is tracked iff it is younger than 10 min, or used and younger than
+// 6 h" for a POPULATION as large as a registration burst produces (tens of thousands of registrations over hundreds of phantoms, in
+// every age / use class of Registry.tla) - ONE sweep must leave exactly the unexpired ones: objects, expiry records, phantom
+// entries and lookups alike.  (The exhaustive configurations track at most three registrations at once.)
+func TestVerifRegistryScale(t *testing.T) {
+	out := vOpenOut(t)
+	defer out.Close()
+	n := vEnvInt("VERIF_SCALE", 24000)
+	w := vregNewWorld()
+	type cls struct {
+		name  string
+		age   time.Duration
+		used  bool
+		valid bool
+	}
+	classes := []cls{
+		{"fresh-unused", 1 * time.Minute, false, true}, {"9min-unused", 9 * time.Minute, false, true}, {"11min-unused", 11 * time.Minute, false, true},
+		{"11min-unvalidated", 11 * time.Minute, false, false}, {"11min-used", 11 * time.Minute, true, true}, {"5h-used", 5 * time.Hour, true, true},
+		{"7h-used", 7 * time.Hour, true, true}, {"7h-unused", 7 * time.Hour, false, true},
+	}
+	// the burst: most of the population is in the one class that must disappear completely
+	weights := []int{5, 5, 60, 5, 5, 5, 10, 5}
+	total := 0
+	for _, x := range weights {
+		total += x
+	}
+	regs := map[string][]*DecoyRegistration{}
+	phantomsOf := map[string]map[string]bool{}
+	i := 0
+	for ci, c := range classes {
+		cnt := n * weights[ci] / total
+		phantomsOf[c.name] = map[string]bool{}
+		for j := 0; j < cnt; j++ {
+			i++
+			var ip net.IP
+			if i%2 == 0 {
+				ip = net.IPv4(10, byte(100+ci), byte((j/200)%250), byte(1+j%200))
+			} else {
+				ip = net.ParseIP(fmt.Sprintf("2001:db8:%x::%x", 0x100+ci, 1+j/64))
+			}
+			secret := vSecret(fmt.Sprintf("scale-%d", i))
+			keys, err := core.GenSharedKeys(uint(core.CurrentClientLibraryVersion()), secret, pb.TransportType_Min)
+			if err != nil {
+				t.Fatal(err)
+			}
+			src := pb.RegistrationSource_API
+			d := &DecoyRegistration{PhantomIp: ip, PhantomPort: 443, Keys: &keys, Transport: pb.TransportType_Min, RegistrationSource: &src,
+				RegistrationTime: time.Now(), registrationAddr: net.ParseIP("198.51.100.7")}
+			if err := w.r.Track(d); err != nil {
+				t.Fatal(err)
+			}
+			if c.valid {
+				if err := w.r.register(d.PhantomIp.String(), d); err != nil {
+					t.Fatal(err)
+				}
+			}
+			if c.used {
+				w.r.markActive(d)
+			}
+			regs[c.name] = append(regs[c.name], d)
+			phantomsOf[c.name][ip.String()] = true
+		}
+	}
+	// age every expiry record to its class
+	for _, c := range classes {
+		for _, d := range regs[c.name] {
+			id := w.r.transports[d.Transport].GetIdentifier(d)
+			if to, ok := w.r.decoysTimeouts[timeoutKey(d.PhantomIp.String(), id)]; ok {
+				to.registrationTime = time.Now().Add(-c.age)
+			} else {
+				t.Fatalf("no expiry record for a %s registration", c.name)
+			}
+		}
+	}
+	before := map[string]int{}
+	for _, c := range classes {
+		before[c.name] = len(regs[c.name])
+	}
+	start := time.Now()
+	w.r.removeOldRegistrations(w.logger)
+	sweepMs := time.Since(start).Milliseconds()
+	// what is left, per class: tracked objects, expiry records, valid registrations a lookup still returns
+	for _, c := range classes {
+		tracked, records, matching := 0, 0, 0
+		for _, d := range regs[c.name] {
+			if w.r.registrationExists(d) != nil {
+				tracked++
+			}
+			id := w.r.transports[d.Transport].GetIdentifier(d)
+			if _, ok := w.r.decoysTimeouts[timeoutKey(d.PhantomIp.String(), id)]; ok {
+				records++
+			}
+			if m := w.r.getRegistrations(d.PhantomIp); m[id] != nil {
+				matching++
+			}
+		}
+		out.Emit(map[string]any{"kind": "class", "class": c.name, "age_s": int(c.age.Seconds()), "used": c.used, "valid": c.valid,
+			"before": before[c.name], "tracked": tracked, "records": records, "matching": matching})
+	}
+	out.Emit(map[string]any{"kind": "summary", "population": i, "phantom_entries_left": len(w.r.decoys), "expiry_records_left": len(w.r.decoysTimeouts),
+		"sweep_ms": sweepMs})
+}
